@@ -67,7 +67,7 @@ type c17Caller struct {
 }
 
 type c17World struct {
-	m           *gogu.Memoizer[string, int]
+	m           *gogu.Memoizer[c17K, int]
 	mu          sync.Mutex
 	inflight    [4]int
 	invocations [4]int
@@ -112,7 +112,7 @@ func (w *c17World) start(key int) {
 		}
 		var it *cache.Item[int]
 		var err error
-		if try(func() { it, err = w.m.Memoize(c17Key(key), fn) }) {
+		if try(func() { it, err = w.m.Memoize(c17K(c17Key(key)), fn) }) {
 			c.val.Store(-1)
 			c.state.Store(c17Unsettle)
 			return
@@ -233,7 +233,7 @@ func (w *c17World) snapshot(out *W) {
 		inf, inv := w.inflight[k], w.invocations[k]
 		w.mu.Unlock()
 		out.Int(inf).Int(inv)
-		it, _ := w.m.Cache.Get(c17Key(k))
+		it, _ := w.m.Cache.Get(c17K(c17Key(k)))
 		if it != nil {
 			out.Int(1).Int(it.Val())
 		} else {
@@ -269,7 +269,7 @@ func (w *c17World) drain() {
 // one attempt at a controlled run; ok=false when a clk-0 action could not be
 // shown to lie before every deadline of its epoch
 func c17Controlled(def int64, acts []int64) (obs []int64, ok bool) {
-	w := &c17World{m: gogu.NewMemoizer[string, int](time.Duration(def), 0)}
+	w := &c17World{m: gogu.NewMemoizer[c17K, int](time.Duration(def), 0)}
 	defer w.drain()
 	out := &W{}
 	epochStart := time.Now()
@@ -311,7 +311,7 @@ func c17Spin(n int) {
 }
 
 func c17Free(ncallers, nkeys, latUs int, cfg []int64) []int64 {
-	m := gogu.NewMemoizer[string, int](time.Hour, 0)
+	m := gogu.NewMemoizer[c17K, int](time.Hour, 0)
 	var mu sync.Mutex
 	var log []c17Event
 	ev := func(e c17Event) {
@@ -353,7 +353,7 @@ func c17Free(ncallers, nkeys, latUs int, cfg []int64) []int64 {
 			ev(c17Event{1, c, key, 0, 0})
 			var it *cache.Item[int]
 			var err error
-			if try(func() { it, err = m.Memoize(c17Key(key), fn) }) {
+			if try(func() { it, err = m.Memoize(c17K(c17Key(key)), fn) }) {
 				ev(c17Event{4, c, key, 1, -2})
 				return
 			}
@@ -379,7 +379,7 @@ func c17Free(ncallers, nkeys, latUs int, cfg []int64) []int64 {
 	mu.Lock()
 	defer mu.Unlock()
 	for k := 1; k <= nkeys; k++ {
-		it, _ := m.Cache.Get(c17Key(k))
+		it, _ := m.Cache.Get(c17K(c17Key(k)))
 		if it != nil {
 			log = append(log, c17Event{5, 0, k, 1, it.Val()})
 		} else {
@@ -665,3 +665,10 @@ func init() {
 	register(&Prop{ID: "C17", Exec: execC17, Gen: genC17, Describe: describeC17,
 		Rule: "stream exhaustive (model-compared): every action sequence of length <= 5 (thorough 6) over {start caller on k, running execution of k returns a value, ... returns an error} for k in 1..2, plus 3 keys up to length 4 (thorough 6) without no-op finishes, driven against the real Memoize with callbacks blocking on harness channels, snapshot compared after every action at quiescence; stream random: longer controlled sequences on 3 keys with default expiry 1h / 0 / NoExpiration; stream expiry: controlled sequences with a 5 ms default expiry where the harness lets all deadlines pass before marked actions (cases whose timing cannot be bracketed are discarded and counted); stream monitored (MONITORED, NOT MODEL-COMPARED): free-running jittered runs, 1..16 callers x 1..3 keys x fn latency {0, 200us, 2ms} x start spread {0, 300us, 5ms} x outcomes, event log judged by the Gallina monitor mon_accepts; stream tightrace (MONITORED, NOT MODEL-COMPARED): 10000 (thorough 60000) free-running rounds of 2..4 callers on ONE key, fn returning at once, starts staggered by a random sub-microsecond busy-wait, a quarter with a failing first execution, same monitor (aimed at the window between a caller's cache miss and its group.Do; the histogram counts how often a re-execution after a stored value occurred); non-trivial there = that window was hit or the first execution fails. non-trivial = the sequence contains a join of an in-flight execution, a cache hit or an error outcome (controlled) / >= 2 callers (free); distinct = distinct wire input"})
 }
+
+// c17K: the key type of every memoizer of this harness is a NAMED string with a String method that prints the
+// same text for every key: a Memoize that derives its flight / cache key from the printed form would make
+// different keys share one computation.
+type c17K string
+
+func (c17K) String() string { return "memo key" }
